@@ -85,6 +85,31 @@ var c11Patches = []c11Patch{
 		Site:  func(n string, r *rand.Rand) string { return n + ".Thing" }},
 }
 
+// c11Variant rewrites a patch for another pair of import paths whose last elements (the guessed
+// package names) are pn and qn: paths ending in a version-like element ("/v1") are ordinary paths.
+func c11Variant(p c11Patch, P2, Q2, pn, qn string) c11Patch {
+	rep := strings.NewReplacer(c11P, P2, c11Q, Q2, "foo", pn, "bar", qn)
+	q := p
+	q.Text = rep.Replace(p.Text)
+	conv := func(l []impSpec) []impSpec {
+		var out []impSpec
+		for _, s := range l {
+			n := s
+			n.Path = rep.Replace(s.Path)
+			if s.Name == "foo" {
+				n.Name = pn
+			} else if s.Name == "bar" {
+				n.Name = qn
+			}
+			out = append(out, n)
+		}
+		return out
+	}
+	q.Minus, q.Ctx, q.Plus = conv(p.Minus), conv(p.Ctx), conv(p.Plus)
+	q.Name = p.Name + "/" + pn
+	return q
+}
+
 var c11Others = []impSpec{
 	{"", "fmt"}, {"", "os"}, {"str", "strings"}, {"_", "embed"}, {".", "math"}, {"", "example.com/x/y"}, {"yy", "example.com/x/y2"},
 	{"", "net/http"}, {"foo2", "example.com/old/foo2"}, {"", "example.com/old/foobar"}, {"bar2", "example.com/new/bar2"}, {"_", "example.com/side/effect"},
@@ -206,20 +231,26 @@ func runC11(ctx *core.Ctx, idx int) *core.Result {
 	res := &core.Result{}
 	r := ctx.Rand("c11", idx)
 	p := c11Patches[idx%len(c11Patches)]
+	pathP, pn := c11P, "foo"
+	if (idx/len(c11Patches))%3 == 1 {
+		// import paths whose last element looks like a version: "example.com/api/core/v1" is package v1
+		pathP, pn = "example.com/api/core/v1", "v1"
+		p = c11Variant(p, pathP, "example.com/api/apps/v0", "v1", "v0")
+	}
 	var srcs, forms, usesCls []string
 	for f := 0; f < 4; f++ {
 		// form of the affected import in the file
 		form := []string{"unnamed", "named-f", "named-foo", "absent", "unnamed", "named-f"}[r.Intn(6)]
 		var specs []impSpec
-		name := "foo"
+		name := pn
 		switch form {
 		case "unnamed":
-			specs = append(specs, impSpec{"", c11P})
+			specs = append(specs, impSpec{"", pathP})
 		case "named-f":
-			specs = append(specs, impSpec{"f", c11P})
+			specs = append(specs, impSpec{"f", pathP})
 			name = "f"
 		case "named-foo":
-			specs = append(specs, impSpec{"foo", c11P})
+			specs = append(specs, impSpec{pn, pathP})
 		}
 		others := append([]impSpec{}, c11Others...)
 		r.Shuffle(len(others), func(i, j int) { others[i], others[j] = others[j], others[i] })
@@ -255,7 +286,7 @@ func runC11(ctx *core.Ctx, idx int) *core.Result {
 		}
 		// keep the other named imports "used"
 		for _, s := range specs {
-			if s.Path == c11P || s.Name == "_" || s.Name == "." {
+			if s.Path == pathP || s.Name == "_" || s.Name == "." {
 				continue
 			}
 			n := s.Name
@@ -303,7 +334,7 @@ func runC11(ctx *core.Ctx, idx int) *core.Result {
 			}
 			res.Ob("applied:"+pnames[pi], 1)
 			// what the file calls the affected import
-			fileName := map[string]string{"unnamed": "", "named-f": "f", "named-foo": "foo"}[forms[i]]
+			fileName := map[string]string{"unnamed": "", "named-f": "f", "named-foo": pn}[forms[i]]
 			resolve := func(s impSpec) impSpec {
 				if s.Name == "$" {
 					return impSpec{fileName, s.Path}
@@ -340,7 +371,7 @@ func runC11(ctx *core.Ctx, idx int) *core.Result {
 					n = baseName(rs.Path)
 				}
 				if s.Name == "$" {
-					n = "foo" // the metavariable's own name stands for the package when unnamed
+					n = pn // the metavariable's own name stands for the package when unnamed
 					if fileName != "" {
 						n = fileName
 					}
